@@ -21,7 +21,7 @@ EXPLANATION = (
     'with are rejected (gap check between matches) instead of skipped; C07.5 literal notations recognised by the '
     'pattern and converted by parse_numeric_string agree (prefix/suffix, digit class, base), numeric is tried before '
     'label, BYTEn takes its index from the character after the literal BYTE and selects that little-endian byte. Not '
-    'decided: numerical correctness of evaluation for all values (float division beyond 2^53, BYTEn arithmetic).'
+    'decided: numerical correctness of evaluation for all values (BYTEn arithmetic on arbitrary integers).'
 )
 ASSUMPTIONS = [
     're._parser gives the regex AST of constant-folded patterns; first-character sets over printable ASCII',
@@ -285,7 +285,7 @@ def c07_3(ctx):
     conv = {}
     for n in ast.walk(comp.node):
         if isinstance(n, ast.Assign) and isinstance(n.targets[0], ast.Name) and isinstance(n.value, ast.Call) \
-                and isinstance(n.value.func, ast.Name) and n.value.func.id in ('int', 'float') and len(n.value.args) == 1 \
+                and isinstance(n.value.func, ast.Name) and n.value.func.id in ('int', 'float', 'Fraction', 'Decimal') and len(n.value.args) == 1 \
                 and unparse(n.value.args[0]) == n.targets[0].id:
             # the token types under which the conversion happens: the test of the innermost enclosing `if` branch taken
             from engine.helpers import membership_view
@@ -307,6 +307,12 @@ def c07_3(ctx):
     bad = conv.get('int', set()) & {'T_DIV'}
     ctx.check(not bad, 'value:true-division', comp.site(), 'division operands are not truncated before dividing (real quotient)',
               f'int() applied to operands of {sorted(bad)}')
+    # the real quotient, exactly: binary floating point (float(), or / on ints beyond 2**53) is not the real quotient
+    fl = conv.get('float', set()) & {'T_DIV', 'T_MOD'}
+    ex = conv.get('Fraction', set())
+    ctx.check({'T_DIV', 'T_MOD'} <= ex and not fl, 'value:exact-division', comp.site(),
+              'operands of / and % are converted to exact rationals (Fraction) before the operation, so that 29/100*100 is 29 and large integers keep all their digits',
+              f'float() under {sorted(fl)}, Fraction() under {sorted(ex)}')
 
 
 def c07_4(ctx):
@@ -598,6 +604,7 @@ RULES = [c07_1, c07_2, c07_3, c07_4, c07_5, c07_state, c07_who]
 _X = 'expression/__init__.py'
 _U = 'utilities.py'
 MUTANTS = [
+    V('c07-float-division', 'expression/__init__.py', "                left_result = Fraction(left_result)\n                right_result = Fraction(right_result)", "                left_result = float(left_result)\n                right_result = float(right_result)", 'C07.3'),
     V('c07-hex-suffix-needs-leading-digit', 'utilities.py', "PATTERN_HEX = r'(?:\\$|0x)[0-9a-fA-F]+|[0-9a-fA-F]+H\\b'", "PATTERN_HEX = r'(?:\\$|0x)[0-9a-fA-F]+|[0-9][0-9a-fA-F]*H\\b'", 'C07.5'),
     V('c07-lexer-advance-before-gap', 'expression/__init__.py', '''        # anything between recognized parts other than whitespace is not part of a valid expression
         skipped_text = s[scan_position:part_match.start()].strip()
